@@ -38,6 +38,9 @@ func keep(name string) bool {
 	if bare[name] {
 		return true
 	}
+	if name == "adminMutex.Lock" || name == "adminMutex.RLock" {
+		return true // where the method starts to exclude the other admin requests
+	}
 	for _, p := range []string{"adminDB.", "admins.", "provisioners."} {
 		if strings.HasPrefix(name, p) {
 			return true
